@@ -29,7 +29,7 @@ func TestVerif(t *testing.T) {
 		Rule: "(A) for Repository.Tags, Registry.Repositories and Repository.Referrers (API): every item list of length 0..5 x every value of last (none, each item, a non-member) x every split of the remaining items into <= 4 pages (empty pages included) " +
 			"x client page size {0,1,2,7} x Link form {absolute, absolute path, absolute path with extra parameters and spaces, an opaque cursor instead of last, query-only reference, relative-path reference ./<last segment>} x (when a page is empty) that page written with or without its list member x callback failing at page {never,0,1,2} x (referrers) artifact-type filter {none, applied by the server via header, via annotation, not applied}; " +
 			"the scripted registry double serves exactly those pages and checks every follow-up request against the Link it issued. (B) response documents of size limit-1, limit, limit+1 for small MaxMetadataBytes, padded by whitespace inside the document, after it, or by a long item; a counting body measures the bytes consumed. " +
-			"(C) OCI layout Tags (read-write and read-only store) for every subset of 4 tag names x every last. (D) Referrers through the tag schema with every filter; and with a chunked GET answer that goes on for 100 KiB after the announced index (no more than MaxMetadataBytes read). " +
+			"(C) OCI layout Tags (read-write and read-only store) for every subset of 4 tag names x every last, each listing preceded by one whose callback scribbles over the slice it was handed. (D) Referrers through the tag schema with every filter; and with a chunked GET answer that goes on for 100 KiB after the announced index (no more than MaxMetadataBytes read). " +
 			"Oracle: concatenated callback arguments = the model list (for referrers also artifactType and annotations of every descriptor, which differ from entry to entry); a slice handed to the callback still holds the same items after the listing; stops at the first missing Link or callback error (returned); bytes consumed <= limit; oversize document => error. non-trivial = distinct case with >= 2 pages or a non-empty last",
 		Assumptions: []string{"a 'document' is the JSON value; trailing whitespace after a value that fits the limit is not part of it"},
 		Jobs:        jobs,
@@ -597,6 +597,19 @@ func ociTags(c *driver.Ctx) {
 			for kind, lister := range map[string]interface {
 				Tags(context.Context, string, func([]string) error) error
 			}{"rw": st, "ro": ro} {
+				// a first listing whose callback uses the slice it is handed as scratch space (reverses and blanks
+				// it): what a later listing delivers must not depend on that
+				_ = lister.Tags(context.Background(), last, func(t []string) error {
+					for i, j := 0, len(t)-1; i < j; i, j = i+1, j-1 {
+						t[i], t[j] = t[j], t[i]
+					}
+					for i := range t {
+						if i%2 == 0 {
+							t[i] = "zz-overwritten"
+						}
+					}
+					return nil
+				})
 				var got []string
 				err := lister.Tags(context.Background(), last, func(t []string) error { got = append(got, t...); return nil })
 				c.Evals++
